@@ -99,8 +99,12 @@ impl<'i, R: RuleType> FlatPairs<'i, R> {
 
 impl<R: RuleType> ExactSizeIterator for FlatPairs<'_, R> {
     fn len(&self) -> usize {
-        // Tokens len is exactly twice as flatten pairs len
-        (self.end - self.start) >> 1
+        // `next` and `next_back` step over whole nested pairs, so the width of the token
+        // window is only twice the number of pairs before iteration starts: count the
+        // start tokens that are left instead.
+        (self.start..self.end)
+            .filter(|&index| self.is_start(index))
+            .count()
     }
 }
 
